@@ -169,14 +169,14 @@ def walkLoop (cfg : Cfg) (forest : List Node) : Nat → EvIter → List Anc → 
       | .err o => walkLoop cfg forest fuel it' ig (o :: acc)
       | .exit => walkLoop cfg forest fuel it' ig.tail acc
       | .dir d info =>
-        if decide (d.depth ≠ 0) && skipEntry cfg ig d.path (d.path.getLast?.getD 0) d.view then
+        if decide (d.depth ≠ rootDepth) && skipEntry cfg ig d.path (d.path.getLast?.getD 0) d.view then
           -- self.it.skip_current_dir(); self.ig = self.ig.add_child(..); continue
           walkLoop cfg forest fuel { it' with wd := { it'.wd with s := it'.wd.s.pop it'.wd.follow } }
             ((info.ino, info.ign) :: ig) acc
         else
           walkLoop cfg forest fuel it' ((info.ino, info.ign) :: ig) (.entry d.path :: acc)
       | .file d =>
-        if decide (d.depth ≠ 0) && skipEntry cfg ig d.path (d.path.getLast?.getD 0) d.view then
+        if decide (d.depth ≠ rootDepth) && skipEntry cfg ig d.path (d.path.getLast?.getD 0) d.view then
           walkLoop cfg forest fuel it' ig acc
         else walkLoop cfg forest fuel it' ig (.entry d.path :: acc)
 
